@@ -248,7 +248,7 @@ func init() {
 		for i := 0; i < count; i++ {
 			gr := r.Fork()
 			ents := 1 + gr.Intn(3)
-			o := gen.GraphOpts{Modules: ents + gr.Intn(6), Entries: ents, AllowCJS: gr.Chance(1, 3), AllowDyn: gr.Chance(1, 2), AllowCycle: gr.Bool(), AllowStar: gr.Bool(), SideEffectFreeDecls: true, AvoidInPlaceOrder: true}
+			o := gen.GraphOpts{Modules: ents + gr.Intn(6), Entries: ents, AllowCJS: gr.Chance(1, 3), AllowDyn: gr.Chance(1, 2), AllowCycle: gr.Bool(), AllowStar: gr.Bool(), SideEffectFreeDecls: true, AvoidInPlaceOrder: true, DualPkg: gr.Chance(1, 4)}
 			g := gen.GenGraph(gr, o)
 			mergeStats(rep, "gen:", g.Stats)
 			v := c19Variant(gr, ents)
